@@ -35,7 +35,9 @@
       popped push is cheaper than every push still stored up to 2 cost units.
     * C03_Cd_queue_sorted (with the Boolean check C03_Cd_monotone_check) — the queue is a MONOTONE PRIORITY QUEUE: along
       every protocol run whose pushes cost at least the last popped cost and lie inside the window, the popped
-      costs are non-decreasing (this is the step that makes `_cost_lists_derivation[args]` sorted).
+      costs are non-decreasing (this is the step that makes `_cost_lists_derivation[args]` sorted);
+      C03_Cd_successors_cost — the successor loop of the machine respects that discipline when the cost lists of the
+      argument non-terminals are non-decreasing (every pushed successor costs at least the popped CostTuple).
   NOT proved (compared on every case against the integer costs and exact probabilities computed by
   the harness, with the slack 16 of the pinned tests): that the search keeps its pushes inside the
   window (false: finding C02-F5); the order of the yielded sequence; prefix completeness.
@@ -264,6 +266,16 @@ theorem C03_Cd_queue_sorted (b : Bool) (ops : List QOp) (q q' : Q Rat) (lo : Rat
 
 theorem C03_Cd_monotone_check (b : Bool) (ops : List QOp) (q : Q Rat) (lo : Rat) (h : monotoneB b ops q lo = true) :
     Monotone b ops q lo := monotoneB_sound b ops q lo h
+
+/-- **the machine respects the discipline**: when the cost lists `_cost_lists_nt` of the argument non-terminals are
+    non-decreasing, every successor the model's `succLoop` pushes costs `ct.cost - cl[i] + cl[i+1] ≥ ct.cost`: every
+    lower bound `lo ≤ ct.cost` of the derivation queue of `args` is kept (exact rationals, with or without assert) -/
+theorem C03_Cd_successors_cost (b asserts : Bool) (args : List NT) (c lo : Rat) (comb : List Nat) (hlo : lo ≤ c)
+    (s s' : St Rat) (h : succLoop (ratA b) asserts args c comb comb.length 0 s = some s')
+    (hsorted : ∀ a cl, AList.lookup a s.costNt = some cl → cl.Pairwise (· ≤ ·))
+    (q : Q Rat) (hq : AList.lookup args s.queueDer = some q) (hwf : QWF q) (hl : LowerBound q lo) :
+    ∃ q', AList.lookup args s'.queueDer = some q' ∧ QWF q' ∧ LowerBound q' lo :=
+  succLoop_lowerBound b asserts args c lo comb hlo _ _ s s' h hsorted q hq hwf hl
 
 /-- a script in the style of `query_derivation`: pop, push successors, update -/
 def opsEx : List QOp :=
